@@ -38,7 +38,7 @@ RULE = ('each run = role-built repository with portable names and the standard d
         'edits + update + verify; non-trivial = at least one category with a package; distinct = distinct seam '
         'event-log digest')
 PLAN = {'quick': {'n': 2000, 'budget_s': 90, 'block': 8},
-        'thorough': {'n': 16000, 'budget_s': 1200, 'block': 60}}
+        'thorough': {'n': 80000, 'budget_s': 2400, 'block': 60}}
 ASSUMPTIONS = ['real worker processes are not run: SimPool explores task order inside each map() barrier only',
                'repositories contain eclass, licenses, profiles, metadata/{dtd,glsa,news,xml-schema,md5-cache} (the scripts take them for granted) and profiles/categories without blank lines']
 COMPONENTS_REAL = ['utils/gen_fast_manifest.py, utils/gen_fast_metamanifest.py (imported from the working tree, called in-process)']
